@@ -72,6 +72,40 @@ theorem duplicate_name_rejected (pre mid post : List GlyphInput) (a b : GlyphInp
     simp only [List.cons_append, List.nodup_cons, List.mem_append, List.mem_cons] at this
     exact this.1 (Or.inr (Or.inl h))
 
+theorem nodupB_iff : ∀ l : List String, nodupB l = true ↔ l.Nodup
+  | [] => by simp [nodupB]
+  | x :: xs => by simp [nodupB, nodupB_iff xs]
+
+/-- **C17.4** the masters `config.load` accepts all carry the same drawings: there is a master, no master names a drawing twice,
+and a drawing name is in one master iff it is in every other — so no master's drawing can be dropped when the masters are
+matched up by name. -/
+theorem masters_agree (ms : List (List String)) (h : mastersOk ms = true) :
+    ms ≠ [] ∧ (∀ m ∈ ms, m.Nodup) ∧ ∀ m ∈ ms, ∀ o ∈ ms, ∀ s, s ∈ m ↔ s ∈ o := by
+  cases ms with
+  | nil => simp [mastersOk] at h
+  | cons m0 rest =>
+    simp only [mastersOk, Bool.and_eq_true, List.all_eq_true, List.contains_eq_mem, decide_eq_true_eq] at h
+    obtain ⟨hnd, hsame⟩ := h
+    have key : ∀ o ∈ m0 :: rest, ∀ s, s ∈ o ↔ s ∈ m0 := by
+      intro o ho s
+      rcases List.mem_cons.mp ho with rfl | ho
+      · exact Iff.rfl
+      · exact ⟨fun hs => (hsame o ho).1 s hs, fun hs => (hsame o ho).2 s hs⟩
+    refine ⟨by simp, fun m hm => (nodupB_iff m).mp (hnd m hm), ?_⟩
+    intro m hm o ho s
+    rw [key m hm s, key o ho s]
+
+/-- **C17.4 (⇐)** a master — at any position after the first — with a drawing the first master lacks is rejected, and so is one that
+lacks a drawing of the first -/
+theorem extra_drawing_rejected (m0 : List String) (pre post : List (List String)) (o : List String) (s : String)
+    (h : (s ∈ o ∧ s ∉ m0) ∨ (s ∈ m0 ∧ s ∉ o)) : mastersOk (m0 :: (pre ++ o :: post)) = false := by
+  by_contra hne
+  have hok : mastersOk (m0 :: (pre ++ o :: post)) = true := by simpa using hne
+  have := (masters_agree _ hok).2.2 m0 (by simp) o (by simp) s
+  rcases h with ⟨h1, h2⟩ | ⟨h1, h2⟩
+  · exact h2 (this.mpr h1)
+  · exact h2 (this.mp h1)
+
 /-! non-vacuity -/
 example : acceptInputs [⟨"u1F600", [0x1F600]⟩, ⟨"u1F601", [0x1F601]⟩] [] [] = some [⟨"u1F600", [0x1F600]⟩, ⟨"u1F601", [0x1F601]⟩] := by decide +kernel
 example : acceptInputs [⟨"u1F600", [0x1F600]⟩, ⟨"x", [0x1F601]⟩, ⟨"u1F600", [0x1F602]⟩] [] [] = none := by decide +kernel
